@@ -232,9 +232,11 @@ def run_trio_world(world: Any) -> None:
     trio_run._ALLOW_DETERMINISTIC_SCHEDULING = True
     trio_run._r = sched
     clock = MockClock(autojump_threshold=0)
-    sockets = Sockets([], [world.listener], [])
+    sockets = Sockets([], [world.listener] + world.extra_listeners, [])
     # trio_worker listens on the sockets it is given before serving (trio/run.py:127-131)
     world.listener.listen()
+    for extra in world.extra_listeners:
+        extra.listen()
 
     async def main() -> None:
         sim.clock = clock.current_time
